@@ -17,6 +17,9 @@ from ..run import Result
 
 PROP = 'C05'
 SIDE_NEUTRAL = [M.MERGETOOL, M.DEFAULT, ('use-base', None, None, True), ('inline', None, None, False)]
+# side-neutral input / output strategies, run on the edits they govern
+OUTPUT_NEUTRAL = [('inline', None, 'remove', True), ('inline', None, 'clear-all', True), ('inline', None, 'use-base', True), ('use-base', None, 'inline', True)]
+INPUT_NEUTRAL = [('inline', 'use-base', None, True), ('use-base', 'inline', None, True)]
 
 
 def same_position_inserts(dl, dr):
@@ -168,6 +171,14 @@ def _shard(sh, ctx):
             for j in range(i + 1, len(d1)):
                 for cfg in SIDE_NEUTRAL[:_G['nsym']]:
                     symmetry_check(ctx, seed, d1[i][2], d1[j][2], cfg, (sname, d1[i][0], d1[j][0]))
+    elif kind == 'symx':
+        _, sname, idxs, pool, cfgs = sh
+        seed, d1 = M.depth1(sname)
+        for i in idxs:
+            for j in pool:
+                if j > i:
+                    for cfg in cfgs:
+                        symmetry_check(ctx, seed, d1[i][2], d1[j][2], cfg, (sname, d1[i][0], d1[j][0]))
     elif kind == 'generic':
         _, fam, idxs = sh
         docs = _G['fam'][fam]
@@ -241,6 +252,18 @@ def run(tier, seed):
         _, d1 = M.depth1(sname)
         for i in range(len(d1)):
             shards.append(('sym', sname, (i,)))
+    # side-neutral output / input strategies on the edits they govern
+    xplan = [('S45', ('outputs', 'rerun', 'execution_count'), OUTPUT_NEUTRAL), ('S45#focus:outputs', None, OUTPUT_NEUTRAL), ('S45#focus:outsim', None, OUTPUT_NEUTRAL),
+             ('S45#outruns2', None, OUTPUT_NEUTRAL[:2]),
+             ('S45', ('attachments', 'source', 'cell-retype', 'cell-delete'), INPUT_NEUTRAL), ('S45#focus:source', None, INPUT_NEUTRAL), ('S45#focus:attachments', None, INPUT_NEUTRAL)]
+    if tier == 'thorough':
+        xplan += [('S44', ('outputs', 'rerun', 'execution_count'), OUTPUT_NEUTRAL), ('Sjson', ('outputs', 'rerun', 'execution_count'), OUTPUT_NEUTRAL),
+                  ('S44', ('attachments', 'source', 'cell-retype', 'cell-delete'), INPUT_NEUTRAL), ('S45#outruns3', None, OUTPUT_NEUTRAL)]
+    for sname, kinds, cfgs in xplan:
+        _, d1 = M.depth1(sname)
+        pool = tuple(i for i, (l, t, n) in enumerate(d1) if kinds is None or t['kind'] in kinds)
+        for i in pool:
+            shards.append(('symx', sname, (i,), pool, tuple(cfgs)))
     fam = UJ.merge_families(tier)
     _G['fam'] = fam
     for name, docs in sorted(fam.items()):
@@ -259,7 +282,8 @@ def run(tier, seed):
                 'generic_families': {k: len(v) for k, v in fam.items()}, 'strategy_tables': len(reps), 'cli_combinations': len(allc)},
         assumptions=['symmetry is only demanded when nbdime\'s own diffs base->local and base->remote have no addrange with the same key on '
                      'the same path (the statement\'s exclusion); those diffs are checked separately by C01/C11',
-                     'symmetry configurations: mergetool, inline, use-base (use-local/use-remote are asymmetric by definition)'],
+                     'symmetry configurations: mergetool, inline, use-base (use-local/use-remote are asymmetric by definition); the side-neutral output strategies '
+                     '(remove, clear-all, use-base, inline) on output edits and input strategies (use-base, inline) on source/attachment edits'],
     )
 
 
